@@ -184,7 +184,7 @@ int main(int argc, char **argv)
             /* abandoned case */
             cx_fd_restore();
             fstate_idx = 0;
-            if (subsys_live) { subsys_live = 0; }
+            if (subsys_live) { subsys_live = 0; spifconf_free_subsystem(); }     /* so that its variable list cannot leak into the next case */
         }
         vh_case_done();
     }
